@@ -79,7 +79,7 @@ structure L where
   gDep : List (AID × Int)
   gWd : List (AID × Int)
   gSlashed : List (AID × Int)
-deriving Repr, Inhabited
+deriving DecidableEq, Repr, Inhabited
 
 def zeroStaker : StakerRow := ⟨0, 0, 0⟩
 def zeroPool : Pool := ⟨0, 0, Dec.zero, Dec.zero⟩
@@ -282,9 +282,16 @@ def endBlockRecord (s : L) (r : URec) : L :=
 /-- GetPendingUndelegationRecords(height): record keys whose pending-index key is due at
     `height` (iterator prefix hex(height) + "/" ⇒ complete block = height), resolved through the
     record store; a dangling key makes the whole lookup fail (EndBlock then does nothing). -/
-def pendingRecords (s : L) : Option (List URec) :=
-  let keys := (s.pidx.filter (fun e => e.1.1 = s.height)).map (·.2)
-  keys.mapM (fun k => find? s.recs k)
+def lookupAll (recs : List (RecKey × URec)) : List RecKey → Option (List URec)
+  | [] => some []
+  | k :: ks =>
+    match find? recs k, lookupAll recs ks with
+    | some r, some rs => some (r :: rs)
+    | _, _ => none
+
+def dueKeys (s : L) : List RecKey := (s.pidx.filter (fun e => e.1.1 = s.height)).map (·.2)
+
+def pendingRecords (s : L) : Option (List URec) := lookupAll s.recs (dueKeys s)
 
 /-- x/delegation/keeper/abci.go: EndBlock -/
 def endBlock (s : L) : L :=
@@ -322,27 +329,35 @@ def zeroShares (deleg : List ((SID × AID × OID) × DelegRow)) (o : OID) (a : A
                           | some row => set d (st, a, o) { row with share := Dec.zero }
                           | none => d) deleg
 
-/-- the per-pool body `opFuncToIterateAssets` of SlashAssets for one (operator, asset) pool -/
-def slashPool (s : L) (o : OID) (a : AID) (pl : Pool) (p : Dec) : L × Int :=
+/-- the per-pool body `opFuncToIterateAssets` of SlashAssets: the new pool row and the amount cut.
+    `clear` = (remaining = 0 ∧ HasStakerList): the shares of the pool are wiped. -/
+def cutPool (pl : Pool) (p : Dec) (hasList : Bool) : Pool × Int :=
   let sl := (Dec.mulInt p pl.amount).truncateInt
   let remaining := pl.amount - sl
-  if remaining = 0 ∧ has s.slist (o, a) then
-    let sts := getD s.slist (o, a) []
-    ({ s with deleg := zeroShares s.deleg o a sts, slist := erase s.slist (o, a),
-              pools := set s.pools (o, a) { pl with amount := remaining, totalShare := Dec.zero, opShare := Dec.zero } }, sl)
-  else
-    ({ s with pools := set s.pools (o, a) { pl with amount := remaining } }, sl)
+  if remaining = 0 ∧ hasList then
+    ({ pl with amount := remaining, totalShare := Dec.zero, opShare := Dec.zero }, sl)
+  else ({ pl with amount := remaining }, sl)
+
+/-- does SlashAssets wipe the delegators' shares of pool (o, a)? -/
+def clearsPool (s : L) (o : OID) (a : AID) (pl : Pool) (p : Dec) : Bool :=
+  decide (pl.amount - (Dec.mulInt p pl.amount).truncateInt = 0) && has s.slist (o, a)
 
 /-- x/operator/keeper/slash.go: SlashAssets for a given (already re-based and capped)
-    proportion `p`; `slashUndelegations` = (SlashEventHeight < current height). -/
+    proportion `p`. Undelegations are slashed only when SlashEventHeight < current height.
+    Every pool of the operator is visited exactly once (store keys are unique), so the iteration
+    with in-place update is a map over the operator's pools; the staker lists / delegator shares
+    of pools slashed to zero are wiped. -/
 def slashAssets (s : L) (o : OID) (infraction : Nat) (p : Dec) : L :=
   let (recs', g1) := if infraction < s.height then slashRecords s.recs o infraction p else (s.recs, [])
-  let s := { s with recs := recs' }
-  let s := g1.foldl (fun s e => { s with gSlashed := ghostAdd s.gSlashed e.1 e.2 }) s
   let mine := s.pools.filter (fun e => e.1.1 = o)
-  mine.foldl (fun s e =>
-    let (s', sl) := slashPool s o e.1.2 e.2 p
-    { s' with gSlashed := ghostAdd s'.gSlashed e.1.2 sl }) s
+  let pools' := s.pools.map (fun e =>
+    if e.1.1 = o then (e.1, (cutPool e.2 p (has s.slist e.1)).1) else e)
+  let g2 := mine.map (fun e => (e.1.2, (cutPool e.2 p (has s.slist e.1)).2))
+  let cleared := mine.filter (fun e => clearsPool s o e.1.2 e.2 p)
+  let deleg' := cleared.foldl (fun d e => zeroShares d o e.1.2 (getD s.slist (o, e.1.2) [])) s.deleg
+  let slist' := cleared.foldl (fun l e => erase l (o, e.1.2)) s.slist
+  { s with recs := recs', pools := pools', deleg := deleg', slist := slist',
+           gSlashed := (g1 ++ g2).foldl (fun g e => ghostAdd g e.1 e.2) s.gSlashed }
 
 /-- x/delegation/keeper/delegation.go: AssociateOperatorWithStaker (client chain check elided:
     the harness only uses registered chains) -/
